@@ -410,7 +410,7 @@ def judge_case(case) -> List[Dict[str, str]]:
                 if after_raising_override:
                     # the override raised after it had replaced the property set
                     sig = "C09:override-raised-after-replacing-properties"
-                elif an and where in ("notified", "callback-argument"):
+                elif an and where in ("notified", "callback-argument") and why == "not-a-valid-value":
                     sig = "C09:always-null-emits-nonconforming-value"
                 else:
                     sig = f"C09:{where}-{why}" + (":always-null" if an else "")
@@ -691,6 +691,47 @@ def random_props(rng):
     return {"Format": "uint8", "Permissions": ["pr"]}
 
 
+SHAPE_SETS = [
+    # generated configurations that no shipped definition covers, always run with the whole pool
+    {"Format": "float", "maxValue": 11},
+    {"Format": "float", "minValue": -3.5},
+    {"Format": "float"},
+    {"Format": "float", "minValue": 0.25, "maxValue": 0.25},
+    {"Format": "float", "minValue": 1, "maxValue": 4, "minStep": 3},
+    {"Format": "float", "minValue": 0, "maxValue": 1, "ValidValues": {"a": 0, "b": 1}},
+    {"Format": "uint8", "minValue": 1, "maxValue": 4, "minStep": 3},
+    {"Format": "uint8", "minValue": 1.0, "maxValue": 200.0, "minStep": 0.5},
+    {"Format": "int", "minValue": -7, "maxValue": -2, "minStep": 5},
+    {"Format": "int", "maxValue": 10, "minStep": 0.1},
+    {"Format": "uint16", "minValue": 3},
+    {"Format": "uint32", "minValue": 0, "maxValue": 10, "minStep": 1, "ValidValues": {"a": 2, "b": 10, "c": 0}},
+    {"Format": "uint64", "minStep": 1e-320},
+    {"Format": "string", "maxLen": 0},
+    {"Format": "string", "maxLen": 256},
+    {"Format": "string", "maxLen": 5},
+    {"Format": "bool"},
+    {"Format": "tlv8"},
+    {"Format": "data"},
+]
+
+
+def shape_scripts() -> List[Dict[str, Any]]:
+    cases = []
+    for base in SHAPE_SETS:
+        for perms in (["pr", "pw", "ev"], ["pw"]):
+            p = dict(base, Permissions=perms)
+            pool = value_pool(p)
+            for an in (False, True):
+                for kind in ("set", "client"):
+                    if perms == ["pw"] and (an or kind == "client"):
+                        continue
+                    ops = [({"op": "set", "v": v, "notify": True} if kind == "set" else {"op": "client", "v": v}) for v in pool]
+                    for i in range(0, len(ops), 12):
+                        cases.append({"def": None, "props": p, "always_null": an,
+                                      "cfg": {"allowInvalid": False, "hasSetter": True}, "ops": ops[i : i + 12]})
+    return cases
+
+
 def gen_cases(ctx: Ctx, thorough_size=False) -> List[Dict[str, Any]]:
     rng = ctx.rng
     defs = _defs()
@@ -702,6 +743,7 @@ def gen_cases(ctx: Ctx, thorough_size=False) -> List[Dict[str, Any]]:
         for _ in range(3 if quick else 40):
             cfg = {"allowInvalid": rng.random() < 0.15, "hasSetter": rng.random() < 0.8}
             cases.append({"def": name, "cfg": cfg, "ops": gen_ops(rng, props, rng.randint(1, 12))})
+    cases += shape_scripts()
     for _ in range(250 if quick else 6000):
         p = random_props(rng)
         cfg = {"allowInvalid": rng.random() < 0.15, "hasSetter": rng.random() < 0.8}
